@@ -1175,9 +1175,11 @@ class CodeGenerator(NodeVisitor):
             # time too, but i welcome it not to confuse users by throwing the
             # same error at different times just "because we can".
             if not self.has_known_extends:
-                self.writeline("if parent_template is not None:")
+                self.writeline("if parent_template is not None:", node)
                 self.indent()
-            self.writeline('raise TemplateRuntimeError("extended multiple times")')
+            self.writeline(
+                'raise TemplateRuntimeError("extended multiple times")', node
+            )
 
             # if we have a known extends already we don't need that code here
             # as we know that the template execution will end here.
